@@ -219,6 +219,11 @@ type Topic struct {
 	statsKey  string
 
 	handlers []*bufHandler
+
+	// collectMu makes collect one step: storing the new state (which yields the event's previous state)
+	// and queueing the event on the handlers. Without it two concurrent collects on the topic could reach
+	// the handlers in the opposite order of their state updates.
+	collectMu sync.Mutex
 }
 
 func (s *Topics) newTopic(id string) *Topic {
@@ -331,6 +336,8 @@ func (t *Topic) close() {
 }
 
 func (t *Topic) collect(event Event) error {
+	t.collectMu.Lock()
+	defer t.collectMu.Unlock()
 
 	prev, ok := t.updateEvent(event.State)
 	if ok {
